@@ -25,8 +25,8 @@ def parseBatches (ops : List (List String)) : List Batch :=
       | none => none
     | _ => none
 
-/-- model outputs in the harness' format; stops at the first `Terminate`; the protocol's timeout
-    after every batch is consumed silently. -/
+/-- model outputs in the harness' format; stops at the first `Terminate`; after every batch the
+    protocol lets the receive time out once (arrival `timeout`, output `FB`). -/
 def modelOut (n : Nat) (bs : List Batch) : List String := Id.run do
   let mut s := Noir.Start.init n
   let mut out : List String := []
@@ -41,6 +41,11 @@ def modelOut (n : Nat) (bs : List Batch) : List String := Id.run do
         if done then continue
         out := s!"{b.idx} {elemToStr x}" :: out
         if x.isTerm then done := true
+    if !done then
+      let (s', o) := Noir.Start.step s (Arrival.timeout : Arrival Val)
+      s := s'
+      for x in o do
+        out := s!"{b.idx} {elemToStr x}" :: out
   return out.reverse
 
 /-- The oracle works on the implementation's output elements (indices stripped). -/
@@ -112,9 +117,17 @@ def handle (c : Case) : Verdict :=
         match parseImpl c.implOut with
         | none => some "unparsable implementation output"
         | some impl =>
+          -- the timeout FlushBatches are real outputs of `Start`; for C06/C17 they are irrelevant
+          let implNoFb := impl.filter (fun e => match e with | .flushBatch => false | _ => true)
           let f06 := if !wmSafeOk impl then ["[C06] output violates watermark safety"] else []
-          let f05 := if inputComplete n bs && !grammarOk impl then ["[C05] output violates the stream grammar"] else []
-          let f17 := match progressCheck n bs impl with
+          let f05 :=
+            if inputComplete n bs && !grammarOk impl then
+              -- F11: the only deviation is a timeout FlushBatch between the last FlushAndRestart and Terminate
+              if grammarOk implNoFb && c.implOut == out then
+                ["[C05] known:F11-flushbatch-between-last-far-and-terminate output has FlushBatch after the last FlushAndRestart"]
+              else ["[C05] output violates the stream grammar"]
+            else []
+          let f17 := match progressCheck n bs implNoFb with
             | some msg =>
               -- F5: exactly the behaviour of the unchanged code (frontier increase caused by a replica's
               -- FlushAndRestart is not announced); see Props/C17.lean `frontier_progress_counterexample`
